@@ -248,7 +248,7 @@ def atom_columns(name, sub, df):
         return ((v - v.mean()) / v.std())[:, None]
     if text.startswith("center("):
         return (v - v.mean())[:, None]
-    key = (text, id(df))
+    key = (text, len(df), df[name].to_numpy(dtype=float).tobytes())  # (by content: the id of a frame that is gone gets reused)
     if key not in _NUMCACHE:
         _NUMCACHE[key] = np.asarray(design_matrices("0 + " + text, df).common.design_matrix, dtype=float)
     return _NUMCACHE[key]
@@ -355,6 +355,24 @@ def check_case(case, acc):
     acc.case([f, case["lv"], case.get("reps", 2), case.get("sub")], "ok", nontrivial=nontrivial(case))
 
 
+def generic_position(case, df, rank_r):
+    """True when the model space on df has the dimension it has for generic numeric data (same cells, three times the rows,
+    fresh numeric draws)."""
+    import pandas as pd
+
+    big = pd.concat([df] * 3, ignore_index=True)
+    rng = np.random.RandomState(4242)
+    for c in ("x", "z"):
+        if c in big:
+            lo, hi = float(df[c].min()), float(df[c].max())
+            big[c] = np.round(lo + (hi - lo) * rng.uniform(size=len(big)), 4)
+            big.loc[: len(df) - 1, c] = df[c].to_numpy()  # (the original rows stay: ranges, knots and fitted parameters are unchanged)
+    try:
+        return linalg.rank(reference(case, big)) <= rank_r
+    except Exception:
+        return True
+
+
 def decide(f, case, df, X):
     """None when X has full column rank and spans the model space on df; 'undecided'; or (clause, sig, message)."""
     if not np.isfinite(X).all():
@@ -364,6 +382,9 @@ def decide(f, case, df, X):
         ok, rep = linalg.same_span(X, R)
     except linalg.Undecided:
         return "undecided"
+    if (rep["rank_x"] != rep["ncol"] or not ok) and not generic_position(case, df, rep["rank_r"]):
+        return "undecided"  # on this frame the numeric columns are not in general position for this formula (e.g. a spline basis
+        # function that vanishes on all rows of a cell): the model space is smaller here than for generic data
     if rep["rank_x"] != rep["ncol"]:
         return ("full-column-rank", "rank-loss", f"{rep['ncol']} columns of rank {rep['rank_x']} (model space has dimension {rep['rank_r']})")
     if not ok:
